@@ -28,12 +28,12 @@ Proof.
   destruct e; cbn; rewrite IH; reflexivity.
 Qed.
 
-Lemma frames_of_map_rows c (g : msg_row -> frame) b l :
-  frames_of (map (fun r => LFrame c (g r) b) l) = map (fun r => (c, g r)) l.
+Lemma frames_of_map_rows c (g : msg_row -> frame) b tx l :
+  frames_of (map (fun r => LFrame c (g r) b tx) l) = map (fun r => (c, g r)) l.
 Proof. induction l as [|r l IH]; cbn; [reflexivity|]. rewrite IH. reflexivity. Qed.
 
-Lemma frames_of_map_conns f b (l : list nat) :
-  frames_of (map (fun c' => LFrame c' f b) l) = map (fun c' => (c', f)) l.
+Lemma frames_of_map_conns f b tx (l : list nat) :
+  frames_of (map (fun c' => LFrame c' f b tx) l) = map (fun c' => (c', f)) l.
 Proof. induction l as [|r l IH]; cbn; [reflexivity|]. rewrite IH. reflexivity. Qed.
 
 Lemma set_log_nil s : log s = [] -> set_log s [] = s.
@@ -111,24 +111,24 @@ Qed.
 
 Lemma send_each_eval c l : forall s,
   send_each c l s =
-  Ok tt (set_log s (rev (map (fun r => LFrame c (msg_frame r) (is_clean s)) l) ++ log s)).
+  Ok tt (set_log s (rev (map (fun r => LFrame c (msg_frame r) (is_clean s) (now s)) l) ++ log s)).
 Proof.
   induction l as [|r l IH]; intros s.
   - cbn. destruct s; reflexivity.
   - cbn [send_each].
-    rewrite (bind_ok _ _ s tt (set_log s (LFrame c (msg_frame r) (is_clean s) :: log s)))
+    rewrite (bind_ok _ _ s tt (set_log s (LFrame c (msg_frame r) (is_clean s) (now s) :: log s)))
       by reflexivity.
     rewrite IH. cbn [map rev]. rewrite <- app_assoc. reflexivity.
 Qed.
 
 Lemma send_all_eval f l : forall s,
   send_all l f s =
-  Ok tt (set_log s (rev (map (fun c => LFrame c f (is_clean s)) l) ++ log s)).
+  Ok tt (set_log s (rev (map (fun c => LFrame c f (is_clean s) (now s)) l) ++ log s)).
 Proof.
   induction l as [|c l IH]; intros s.
   - cbn. destruct s; reflexivity.
   - cbn [send_all].
-    rewrite (bind_ok _ _ s tt (set_log s (LFrame c f (is_clean s) :: log s)))
+    rewrite (bind_ok _ _ s tt (set_log s (LFrame c f (is_clean s) (now s) :: log s)))
       by reflexivity.
     rewrite IH. cbn [map rev]. rewrite <- app_assoc. reflexivity.
 Qed.
@@ -207,7 +207,7 @@ Lemma on_message_open s c cs a side msg o m :
   | Ok _ s' =>
       chan_w s' = d' /\ chan_c s' = d' /\
       (((2 < List.length (sel_mbs_all d' m))%nat /\
-        frames_of (rev (log s')) = [(c, FAck (m_id msg)); (c, FError ErrCrowded)] /\
+        frames_of (rev (log s')) = [(c, FAck (m_id msg)); (c, FError ErrCrowded msg)] /\
         subs s' = subs s /\ ~ holds s' c a m)
        \/
        ((List.length (sel_mbs_all d' m) <= 2)%nat /\
@@ -219,7 +219,7 @@ Proof.
   intros Hinv Hlog Hc Hb Ht Hmb Hm d d'.
   pose proof (si_clean s Hinv) as [Hcl _].
   unfold on_message, try_catch. rewrite Ht.
-  set (s0 := set_log s (LFrame c (FAck (m_id msg)) (is_clean s) :: log s)).
+  set (s0 := set_log s (LFrame c (FAck (m_id msg)) (is_clean s) (now s) :: log s)).
   rewrite (bind_ok _ _ s tt s0) by reflexivity.
   assert (Hc0 : conn_of s0 c = cs).
   { unfold conn_of, s0; cbn. rewrite Hc. reflexivity. }
@@ -291,7 +291,7 @@ Theorem open_outcome s c cs a side msg o m :
     (o_exc ob = None /\ d' = open_db d a m side (now s) /\
      ( (* a third (or later) side: refused, not subscribed, sent nothing of the mailbox *)
        ((2 < List.length (sel_mbs_all d' m))%nat /\
-        frames_of (o_log ob) = [(c, FAck (m_id msg)); (c, FError ErrCrowded)] /\
+        frames_of (o_log ob) = [(c, FAck (m_id msg)); (c, FError ErrCrowded msg)] /\
         subs s' = subs s /\ ~ holds s' c a m)
        \/
        (* served: subscribed, and sent every stored message of exactly this
@@ -334,14 +334,14 @@ Theorem add_effect s c cs a side msg o m phase body :
   (forall c', In c' (subs_of a m (subs s)) <-> holds s c' a m).
 Proof.
   intros Hinv Hlog Hc Hb Hmb Ht Hph Hbd r.
-  set (s0 := set_log s (LFrame c (FAck (m_id msg)) (is_clean s) :: log s)).
+  set (s0 := set_log s (LFrame c (FAck (m_id msg)) (is_clean s) (now s) :: log s)).
   assert (Hc0 : conn_of s0 c = cs).
   { unfold conn_of, s0; cbn. rewrite Hc. reflexivity. }
   set (d1 := upd_touch (ins_msg (chan_w s) r) m (now s)).
   set (s2 := mkState d1 d1 (usage_w s) (usage_c s) (subs s) (conns s) (now s) (boot s)
                      (timer_start s) (next_due s) (LCommitChan d1 :: log s0)).
   assert (Hom : on_message cfg c msg o s =
-                Ok tt (set_log s2 (rev (map (fun c' => LFrame c' (msg_frame r) (is_clean s2))
+                Ok tt (set_log s2 (rev (map (fun c' => LFrame c' (msg_frame r) (is_clean s2) (now s2))
                                             (subs_of a m (subs s))) ++ log s2))).
   { apply (on_message_dispatch_ok cfg c msg o s TAdd _ Ht). fold s0.
     rewrite (dispatch_bound cfg c TAdd msg o s0 a side)
